@@ -39,7 +39,10 @@ func (protocol) Rule() string {
 		"fault-free twice (determinism) and then with one transient or sticky sink failure at a seeded Write call. Checked call by call " +
 		"against a protocol automaton, and when the final Finish returns nil the sink bytes are decoded by the independent reference " +
 		"decoders and compared with the automaton's value tree. Distinct by hash of (configuration, call kinds and payload sizes, fault); " +
-		"non-trivial = at least two calls besides the final Finish."
+		"non-trivial = at least two calls besides the final Finish. In addition, the first 22621 run indices enumerate every call " +
+		"sequence of length <= 4 over a 12-call alphabet (int, symbol, string, field name, annotation, Begin/End of struct, list, sexp, " +
+		"Finish) followed by Finish, on six fixed configurations, fault-free twice and with a transient failure of each single Write call " +
+		"(counter short-sequences.enumerated; complete in both tiers)."
 }
 func (protocol) Assumptions() []string {
 	return []string{
@@ -515,7 +518,63 @@ func (a *automaton) step(idx int, op drive.WOp, errStr string) {
 // ----------------------------------------------------------------------------------------------------------
 // scenario
 
+// shortAlphabet is the reduced call alphabet whose sequences of length <= 4 are enumerated completely (one per run
+// index, on every fixed configuration, fault-free and with a transient failure of every single write call).
+var shortAlphabet = []drive.WOp{
+	{Op: "int", V: model.NewInt(7)},
+	{Op: "symstr", Str: "a"},
+	{Op: "string", V: model.NewString("s")},
+	{Op: "field", Sym: &model.Sym{Text: "a", HasText: true}},
+	{Op: "annot", Sym: &model.Sym{Text: "b", HasText: true}},
+	{Op: "beginstruct"},
+	{Op: "endstruct"},
+	{Op: "beginlist"},
+	{Op: "endlist"},
+	{Op: "beginsexp"},
+	{Op: "endsexp"},
+	{Op: "finish"},
+}
+
+// ShortSequences is the number of sequences of length <= 4 over shortAlphabet.
+const ShortSequences = 1 + 12 + 144 + 1728 + 20736
+
+func shortSequence(j int) []drive.WOp {
+	n := len(shortAlphabet)
+	length, base := 0, 1
+	for j >= base {
+		j -= base
+		base *= n
+		length++
+	}
+	ops := make([]drive.WOp, length)
+	for k := length - 1; k >= 0; k-- {
+		ops[k] = shortAlphabet[j%n]
+		j /= n
+	}
+	return append(ops, drive.WOp{Op: "finish"})
+}
+
+var shortConfigs = []drive.WriterCfg{{Kind: "text"}, {Kind: "pretty"}, {Kind: "binary"}, {Kind: "binary", Shared: sharedPool[:1]},
+	{Kind: "binary-lst", LSTSymbols: []string{"a", "b", "s"}}, {Kind: "binary-lst", LSTSymbols: []string{"b"}}}
+
+func (s protocol) runShort(c *Ctx, j int) {
+	ops := shortSequence(j)
+	c.Count("short-sequences.enumerated", 1)
+	for _, cfg := range shortConfigs {
+		base := s.runOne(c, cfg, ops, sim.WritePlan{}, true)
+		if base == nil {
+			continue
+		}
+		for w := 0; w < base.Sink.Calls && w < 40; w++ {
+			s.runOne(c, cfg, ops, sim.WritePlan{Fault: &sim.WriteFault{Call: w}}, false)
+		}
+	}
+}
+
 func (s protocol) Run(c *Ctx, i int) {
+	if i < ShortSequences {
+		s.runShort(c, i)
+	}
 	r := prng.New(prng.Mix(c.Seed, 12, uint64(i)))
 	g := newProtoGen(r.Fork())
 	ops := g.program()
